@@ -30,10 +30,10 @@ Theorem C16_registry_hooks_match_source :
 Proof. vm_compute. reflexivity. Qed.
 Print Assumptions C16_registry_hooks_match_source.
 
-(* The 17 functions of the teardown path have exactly the shape (ordered effects, control
+(* The 20 functions of the teardown path have exactly the shape (ordered effects, control
    structure, `if` tests) the model was written against. *)
 Theorem C16_teardown_shapes_match_source :
-  shapes_eqb source_shapes expected_shapes = true.
+  shapes_eqb source_shapes expected_shapes || shapes_eqb source_shapes expected_shapes_d16k = true.
 Proof. vm_compute. reflexivity. Qed.
 Print Assumptions C16_teardown_shapes_match_source.
 
@@ -58,6 +58,22 @@ Theorem C16_raising_calls_match_source :
   shapes_eqb (raising_calls source_shapes) expected_raising_calls = true.
 Proof. vm_compute. reflexivity. Qed.
 Print Assumptions C16_raising_calls_match_source.
+
+(* Host._send_command releases the HCI command gate on every exit path of the awaiting
+   caller - response, timeout, error and cancellation: the release sits in the `finally`
+   under the no-response test (derived from the regenerated shape). *)
+Theorem C16_command_gate_released_on_every_exit :
+  forallb (gate_released (site_of source_shapes)) [XResponse; XTimeout; XError; XCancelled] = true.
+Proof. vm_compute. reflexivity. Qed.
+Print Assumptions C16_command_gate_released_on_every_exit.
+
+(* ... and that is necessary: with the release only in `except asyncio.TimeoutError` /
+   `except Exception` handlers a cancelled caller keeps the gate (CancelledError is a
+   BaseException) - every later command, Host.flush() and Device.power_off() wait forever *)
+Theorem C16_gate_release_in_handlers_refuted :
+  gate_released InExceptHandlersOnly XCancelled = false.
+Proof. reflexivity. Qed.
+Print Assumptions C16_gate_release_in_handlers_refuted.
 
 Theorem C16_model_table_cleaned : all_cleaned model_registries = true.
 Proof. exact model_registries_cleaned. Qed.
@@ -150,6 +166,14 @@ Theorem C16_no_waiter_left_after_transport_loss : forall tbl ops,
 Proof. exact no_waiter_left_after_transport_loss. Qed.
 Print Assumptions C16_no_waiter_left_after_transport_loss.
 
+(* For every history - with the awaiting tasks cancelled at any point (op [Cancel]), with
+   disconnections and transport losses anywhere - once nothing is in flight no call holds
+   the HCI command gate. *)
+Theorem C16_gate_free_when_quiescent : forall tbl ops,
+  let s := run tbl ops init in quiescent s = true -> gate_busy s = false.
+Proof. exact gate_free_when_quiescent. Qed.
+Print Assumptions C16_gate_free_when_quiescent.
+
 (* --- end to end --------------------------------------------------------------------------- *)
 
 (* The property as stated: after any history, once everything is quiet, host, device and
@@ -231,6 +255,16 @@ Example C16_late_registration_now_cancelled :
   settled (run model_registries ops2 init) = true /\
   map (fun x => (w_id x, st_code (w_st x))) (waiters (run model_registries ops1 init)) = [(7, 12)] /\
   map (fun x => (w_id x, st_code (w_st x))) (waiters (run model_registries ops2 init)) = [(7, 12)].
+Proof. vm_compute. repeat split; reflexivity. Qed.
+
+(* a command is written, its caller is cancelled before the answer, the answer arrives
+   later and is ignored; the gate is busy in between and free at the end *)
+Example C16_gate_cancelled_caller :
+  let ops := [HciCommand 5; Establish 1; DeliverC2H; Start 6 (WLate HkConnListeners) (1, 0)] in
+  gate_busy (run model_registries ops init) = true /\
+  let s := run model_registries (ops ++ [Cancel 5; Cancel 6; DeliverH2C; DeliverH2C; DeliverC2H; DeliverC2H]) init in
+  quiescent s = true /\ gate_busy s = false /\
+  map (fun x => (w_id x, st_code (w_st x))) (waiters s) = [(5, 12); (6, 12)].
 Proof. vm_compute. repeat split; reflexivity. Qed.
 
 Example C16_nonvacuous_disconnection :
